@@ -5,6 +5,7 @@ import (
 	"crypto/x509"
 	"fmt"
 	"math/big"
+	"strings"
 
 	"verif/internal/keys"
 	"verif/internal/mon"
@@ -70,7 +71,11 @@ func checkC02(r *mon.Run) {
 			continue
 		}
 		if ok, why := refImageVerify(out, cs.Cert); !ok {
-			r.Inconclusive("independent verifier rejects an untouched library-signed image (%s): %s", names[i], why)
+			// the library signed and verifies, yet the signature does not commit to the
+			// specification digest of these bytes: success without the stated condition
+			r.Eval(1)
+			r.Violation("C02|untouched-library-signed-image|"+reasonClass(why), fmt.Sprintf("Verify reports success for a freshly signed image (%s) but the independent verifier says: %s", names[i], why),
+				map[string]any{"image_hex": mon.HexN(out, 80000), "cert_der_hex": mon.Hex(cs.Cert.Raw), "base": names[i]})
 			continue
 		}
 		bases = append(bases, signed{names[i], img, out, sig, cs})
@@ -182,6 +187,13 @@ func checkC02(r *mon.Run) {
 			c.Kids[1].Kids[1].Prim = nd
 			forged := embedSigs(tampered, t.root.Encode())
 			c02Judge(r, b.name, "tamper+digest-rewritten", regionKind(im, p, len(b.out)), forged, certs, fmt.Sprintf("byte %d changed, Spc digest patched", p))
+			// genuine signer info kept, plus an attacker-made signer info whose messageDigest matches the patched content
+			for _, pre := range []bool{false, true} {
+				tf := t.clone()
+				if addForgedSigner(tf, atkKey, atk.Raw, atk.RawSubject, atkSerial, pre) {
+					c02Judge(r, b.name, "tamper+digest-rewritten+second-signer", regionKind(im, p, len(b.out)), embedSigs(tampered, tf.root.Encode()), certs, fmt.Sprintf("byte %d changed, Spc digest patched, forged signer info prepended=%v", p, pre))
+				}
+			}
 			// also patch messageDigest (signature over attributes then breaks)
 			t2 := t.clone()
 			if s := t2.signer(0); s != nil && s.attrs != nil {
@@ -215,4 +227,14 @@ func checkC02(r *mon.Run) {
 	r.Floor("mutants_transplant", 4)
 	r.Floor("mutants_tamper+digest-rewritten", 10)
 	r.Floor("lib_true_oracle_permits", int64(nb/2))
+}
+
+func reasonClass(why string) string {
+	switch {
+	case strings.Contains(why, "embedded digest"):
+		return "embedded-digest-is-not-the-digest-of-the-bytes"
+	case strings.Contains(why, "cannot hash"), strings.Contains(why, "cannot read"):
+		return "reference-cannot-hash"
+	}
+	return "other"
 }
